@@ -42,6 +42,9 @@ Section Solve.
     sol_hfinal : F
   }.
 
+  (* linear-time reverse (= List.rev, see List.rev_alt) *)
+  Definition frev {A} (l : list A) : list A := rev_append l [].
+
   Definition USIZE_MAX : N := 18446744073709551615%N.
 
   Definition coeffs_per_state (m : method) : nat :=
@@ -102,9 +105,9 @@ Section Solve.
       match res with
       | None => None
       | Some (st, stats, log, hs, hfin) =>
-          Some (mkSol (rev (hs_t hs)) (rev (hs_y hs)) (map (@rev F) (hs_tev hs)) (map (@rev vec) (hs_yev hs))
-                      stats st (if o_dense opt then Some (rev (hs_segs hs)) else None)
-                      (rev log) (rev (hs_evlog hs)) (hs_brent_unconverged hs) hfin)
+          Some (mkSol (frev (hs_t hs)) (frev (hs_y hs)) (map frev (hs_tev hs)) (map frev (hs_yev hs))
+                      stats st (if o_dense opt then Some (frev (hs_segs hs)) else None)
+                      (frev log) (frev (hs_evlog hs)) (hs_brent_unconverged hs) hfin)
       end.
 
   (* ---------------- dense evaluation ---------------- *)
